@@ -462,6 +462,7 @@ def get_session_keys(
 
     step2_expectations = [
         TLV.kTLVType_State,
+        TLV.kTLVType_Error,
         TLV.kTLVType_PublicKey,
         TLV.kTLVType_EncryptedData,
     ]
